@@ -357,3 +357,41 @@ Proof.
   - intros f [<-|[<-|[]]]; [left|right]; vm_compute; discriminate.
   - vm_compute. reflexivity.
 Qed.
+
+(* ================= several DISTINCT tagged Unions in one annotation (Tuple[U0, U1, ...], each slot at any position) ====
+   The positions are independent: slot i dispatches with Union i's own tag table.  For ANY number of Unions, of any sizes,
+   with disjoint or overlapping member sets (the hypotheses are per Union: a tag may be assigned in several Unions). *)
+Theorem C13_multi_union_dispatch :
+  forall coerce c pre built us vs,
+  (Forall2 (slot_ok_v1 c built) us vs ->
+   load_slots (map (slot_loader_v1 coerce c) us) (map (dump_lv c built) vs) = Ok (LTuple vs)) /\
+  (Forall2 (slot_ok_v0 c pre built) us vs ->
+   load_slots (map (slot_loader_v0 c pre) us) (map (dump_lv c built) vs) = Ok (LTuple vs)).
+Proof. intros. split; [apply multi_dispatch_v1|apply multi_dispatch_v0]. Qed.
+Print Assumptions C13_multi_union_dispatch.
+
+(* slot i fails with ITS loader's error (for an unassigned tag: by C13_unknown_tag, Union i's valid tags) whenever the
+   earlier slots load *)
+Theorem C13_multi_union_error_is_local :
+  forall fs docs i f d e,
+  nth_error fs i = Some f -> nth_error docs i = Some d -> List.length fs = List.length docs -> f d = Err e ->
+  (forall j g x, j < i -> nth_error fs j = Some g -> nth_error docs j = Some x -> exists v, g x = Ok v) ->
+  load_slots fs docs = Err e.
+Proof. exact load_slots_err. Qed.
+Print Assumptions C13_multi_union_error_is_local.
+
+(* non-vacuity: two Unions of the SAME size over disjoint look-alike members, the second inside a list; the document
+   relabelled with a tag of the OTHER Union is rejected with the valid tags of its own Union *)
+Definition mu_c : uconf := {| u_tag_key := S "__tag__"; u_auto := true |}.
+Definition mu_m (cid : N) (name : string) : member :=
+  {| m_cid := cid; m_name := S name; m_tag := None; m_auto := false; m_fields := [S "x"]; m_defaults := []; m_catchall := false; m_raise := false |}.
+Definition mu_us : list (list arg * pos) :=
+  [([AData (mu_m 0 "A"); AData (mu_m 1 "B")], PHere); ([AData (mu_m 2 "C"); AData (mu_m 3 "D")], PList PHere)].
+Example C13_multi_union_ex :
+  load_slots (map (slot_loader_v1 no_coerce mu_c) mu_us)
+             (map (dump_lv mu_c false) [LInst (mu_m 1 "B") [(S "x", JInt 2)] []; LList [LInst (mu_m 2 "C") [(S "x", JInt 3)] []]])
+    = Ok (LTuple [LInst (mu_m 1 "B") [(S "x", JInt 2)] []; LList [LInst (mu_m 2 "C") [(S "x", JInt 3)] []]]) /\
+  load_slots (map (slot_loader_v1 no_coerce mu_c) mu_us)
+             [JDict [(S "x", JInt 2); (S "__tag__", JStr (S "C"))]; JList []]
+    = Err (EUnknownTag [S "A"; S "B"]).
+Proof. split; vm_compute; reflexivity. Qed.
